@@ -7,6 +7,7 @@ pub mod mvt;
 pub mod tilesets;
 pub mod containers;
 pub mod pipeline;
+pub mod c19cases;
 pub mod checks;
 
 pub use ctx::{Ctx, Tier};
